@@ -5,7 +5,7 @@
 
 package goproxytest
 
-//@ property C20: (*Server).handler, handler$1, allHex, readArchive$1, readArchive$1$1
+//@ property C20: (*Server).handler, handler$1, allHex, readArchive$1, readArchive$1$1, (*Server).readModList
 
 // libraries the handler delegates to (assumed; see DESIGN section 5 C20)
 //@ extern golang.org/x/mod/module.UnescapePath(escaped) (path, err)
@@ -44,6 +44,8 @@ package goproxytest
 //@ extern strings.LastIndex(s, substr) (r)
 //@   pure
 //@   ensures -1 <= r && r + len(substr) <= len(s)
+//@   ensures r >= 0 && len(substr) == 2 ==> at(s, lo(s)+r) == at(substr, lo(substr)) && at(s, lo(s)+r+1) == at(substr, lo(substr)+1)
+//@   ensures len(substr) == 2 ==> forall Q {at(s,Q)} :: lo(s)+r < Q && Q + 2 <= hi(s) ==> !(at(s, Q) == at(substr, lo(substr)) && at(s, Q+1) == at(substr, lo(substr)+1))
 
 //@ func (*Server).readArchive
 //@   trusted
@@ -142,3 +144,29 @@ package goproxytest
 //@   ensures isDirEntry(entry) ==> sameSlice(a.Files, old(a.Files))
 //@   ensures r == nil && !isDirEntry(entry) ==> len(a.Files) == old(len(a.Files)) + 1
 //@   ensures r == nil && !isDirEntry(entry) ==> sid(at(a.Files, hi(a.Files) - 1).Data) == fileContent(sid(path))
+
+// readModList: a file or directory name is split at its LAST "_v" into the escaped module
+// path and the escaped version; both are decoded and recorded together.
+//@ extern os.ReadDir(name) (entries, err)
+//@   modifies new H_Int
+//@   ensures entries == nil || fresh(entries)
+//@ extern (os.DirEntry).Name(e) (r)
+//@   pure
+//@ extern (os.DirEntry).IsDir(e) (r)
+//@   pure
+//@ extern strings.TrimSuffix(s, suffix) (r)
+//@   pure
+//@   ensures lo(r) == lo(s) && hi(r) <= hi(s) && arrof(r) == arrof(s)
+//@ pure func unescPath(s string) string
+//@ pure func unescVers(s string) string
+//@ extern strings.ReplaceAll(s, old, new) (r)
+//@   pure
+//@ func (*Server).readModList
+//@   requires srv != nil
+//@   names (err)
+//@   modifies F_S_goproxytest_Server_modList, H_*
+//@   at call strings.ReplaceAll#1: requires arrof(s) == arrof(name) && lo(s) == lo(name) && hi(s) == lo(name) + i
+//@   at call module.UnescapeVersion#1: requires arrof(escaped) == arrof(name) && lo(escaped) == lo(name) + i + 1 && hi(escaped) == hi(name)
+//@   at call module.UnescapeVersion#1: requires at(name, lo(name)+i) == '_' && at(name, lo(name)+i+1) == 'v'
+//@   at call module.UnescapeVersion#1: requires forall Q {at(name,Q)} :: lo(name)+i < Q && Q + 2 <= hi(name) ==> !(at(name,Q) == '_' && at(name,Q+1) == 'v')
+//@   loop 1: invariant -1 <= rangeindex && srv != nil
